@@ -272,6 +272,44 @@ func c19(c *core.Ctx, r *core.Report) {
 						bad = true
 						r.Violation("funcmap:"+name, c.Pos(x.Pos()), "template function %s can panic", name)
 					}
+					// library calls that panic on a negative count / length
+					nonNeg := func(e ast.Expr) bool {
+						if v := p.TypesInfo.Types[e].Value; v != nil {
+							return constant.Sign(v) >= 0
+						}
+						if call, ok := e.(*ast.CallExpr); ok {
+							if id, ok := call.Fun.(*ast.Ident); ok && (id.Name == "len" || id.Name == "cap") {
+								return true
+							}
+							if id, ok := call.Fun.(*ast.Ident); ok && id.Name == "max" {
+								for _, a := range call.Args {
+									if v := p.TypesInfo.Types[a].Value; v != nil && constant.Sign(v) >= 0 {
+										return true
+									}
+								}
+							}
+						}
+						if t := p.TypesInfo.TypeOf(e); t != nil {
+							if b, ok := t.Underlying().(*types.Basic); ok && b.Info()&types.IsUnsigned != 0 {
+								return true
+							}
+						}
+						return false
+					}
+					if sel, ok := x.Fun.(*ast.SelectorExpr); ok && sel.Sel.Name == "Repeat" && len(x.Args) == 2 {
+						if obj, ok := p.TypesInfo.Uses[sel.Sel].(*types.Func); ok && obj.Pkg() != nil && (obj.Pkg().Path() == "strings" || obj.Pkg().Path() == "bytes") && !nonNeg(x.Args[1]) {
+							bad = true
+							r.Violation("funcmap:"+name, c.Pos(x.Pos()), "template function %s calls %s.Repeat with a count that is not shown non-negative (%s): for large enough values the count is negative and rendering panics", name, obj.Pkg().Name(), types.ExprString(x.Args[1]))
+						}
+					}
+					if id, ok := x.Fun.(*ast.Ident); ok && id.Name == "make" && len(x.Args) >= 2 {
+						for _, a := range x.Args[1:] {
+							if !nonNeg(a) {
+								bad = true
+								r.Violation("funcmap:"+name, c.Pos(x.Pos()), "template function %s makes a slice whose length %s is not shown non-negative: rendering can panic", name, types.ExprString(a))
+							}
+						}
+					}
 				case *ast.IndexExpr, *ast.SliceExpr:
 					bad = true
 					r.Violation("funcmap:"+name, c.Pos(x.Pos()), "template function %s indexes a value: it can panic", name)
